@@ -47,6 +47,10 @@ CHECKS = {
   technique="Coq proof (C03/C13 theorems specialised to derived struct / enum shapes through a shape-to-grammar lowering, plus layout theorems) + differential correspondence of the workspace macro against the Coq model and against the published macro, on 86 generated type definitions",
   text="38 theorems C14_* (props/C14.v) for every shape (unit / named / tuple structs, enums with unit and tuple variants, ignored named fields, generics as instantiation): round trip, uniqueness, static length, total and strict decoding, layout (discriminant first, reverse field order, dynamic fields length-prefixed, ignored named fields omitted and defaulted). Tied to the code by 86 definitions / 123 instances each derived twice (workspace macro and registry 0.7.1): model vs workspace, workspace vs registry bit for bit, 52k near-valid sequences x 2 profiles.",
   note="The proc-macro's token generation is not translated: the tie is the differential run over sampled shapes; compile-time rejections are out of scope; Default::default() is abstract in the theorems; recursive derived types are outside the (finite-tree) grammar. Known findings (printed as KNOWN-FINDING): ignore attribute on tuple-struct fields has no effect; recursive derived types make static_length diverge."),
+ "C06": dict(
+  technique="Coq proof (decimation-in-time induction over an abstract field with Leibniz equality, loop invariants for the bit-reversal swap loop and the three butterfly loops, verified modular exponentiation on the regenerated root table) + differential correspondence for both fields",
+  text="26 theorems C06_* (props/C06.v), nothing partial: every one of the 34 regenerated table entries has multiplicative order exactly n; for every l <= 31 and every canonical vector of length 2^l the model of ntt is the DFT at the powers of the library's primitive root and intt is its exact inverse (equalities on Montgomery words), over the base field and - coordinate-wise, unconditionally - over the extension field; ntt_noswap = bitreverse_order o ntt, intt_noswap + unscale compose to the inverse; lengths 0/1 and documented panics (non powers of two, 2^32). The loop model is hand-written and tied to ntt.rs by 3129 (quick) cases x 2 profiles: unit vectors (a spanning set), boundary values, non-power-of-two lengths, every table entry; the oracle also checks the model against a naive zarith DFT.",
+  note="ntt.rs is hand-modelled (loops); PRIMITIVE_ROOTS is regenerated from the source. Lengths >= 2^17 are executed only in the thorough tier (spot positions); the theorem covers them. Extra extraction directive: Z.pow -> zarith."),
 }
 
 ORDER = ["C%02d" % i for i in range(1, 21)]
